@@ -24,7 +24,7 @@ PID = "C07"
 D = os.path.join(OUT, PID)
 MAX_HANGS = 6          # each costs the 8 s watchdog of the driver
 
-MC_QUICK = ["MC_Sampler_thm", "MC_Sampler_ref_2_3q", "MC_Sampler_ref_4_2", "MC_Sampler_ref_7_1q"]
+MC_QUICK = ["MC_Sampler_thm", "MC_Sampler_ref_2_3q", "MC_Sampler_ref_4_2q", "MC_Sampler_ref_7_1q"]
 MC_THOROUGH = ["MC_Sampler_thm_big", "MC_Sampler_ref_2_3", "MC_Sampler_ref_4_2", "MC_Sampler_ref_3_2", "MC_Sampler_ref_7_1",
                "MC_Sampler_ref_16_1", "MC_Sampler_ref_2_5", "MC_Sampler_ref_5_2"]
 
@@ -45,7 +45,7 @@ def requests(tier, seed):
     for n in range(0, 6):
         for pat in range(6):
             rq.append({"q": "fyall", "n": n, "pat": pat})
-    for pat in ([0, 3, rnd.choice([1, 2, 4, 5])] if quick else range(6)):
+    for pat in ([3, rnd.choice([0, 1, 2, 4, 5])] if quick else range(6)):
         rq.append({"q": "fyall", "n": 6, "pat": pat})
     if not quick:
         for pat in (2, 5):
@@ -59,13 +59,13 @@ def requests(tier, seed):
         for pat in (range(6) if n <= 8 else [rnd.randrange(6), rnd.randrange(6)]):
             rq.append({"q": "rotall", "n": n, "pat": pat})
     # bounded sampler: moduli
-    ks = sorted(set([2, 3, 8, 16, 31, 32, 33, 62, 63] + rnd.sample(range(2, 64), 10))) if quick else list(range(2, 64))
+    ks = sorted(set([2, 3, 31, 32, 33, 63] + rnd.sample(range(4, 63), 4))) if quick else list(range(2, 64))
     mods = [2, 3, 5, 6, 7, 10, 52, 64, 2**63 - 1, 2**63, 2**63 + 1, 2**63 + 2, 2**63 + 12345, 2**64 - 1, 2**64 - 2, 2**64 - 3]
     for k in ks:
         mods += [2**k - 1, 2**k, 2**k + 1]
-    mods += [rnd.randrange(2, 2**64) for _ in range(8 if quick else 150)]
-    mods += [rnd.randrange(2, 2**15) for _ in range(8 if quick else 150)]
-    mods += [rnd.randrange(2**63, 2**64) for _ in range(4 if quick else 60)]
+    mods += [rnd.randrange(2, 2**64) for _ in range(4 if quick else 150)]
+    mods += [rnd.randrange(2, 2**15) for _ in range(4 if quick else 150)]
+    mods += [rnd.randrange(2**63, 2**64) for _ in range(3 if quick else 60)]
     seen = set()
     for m in mods:
         if m < 2 or m >= 2**64 or m in seen:
@@ -266,7 +266,7 @@ def run(tier, seed):
         return c, vlib.tlc("MC_Sampler", c + ".cfg", workers=3 if quick else 4, timeout=400 if quick else 1700, xmx="4g")
     mc_f = [ex.submit(mc, c) for c in mcs]
     # ---- 2. direction B: recorded calls
-    chunks, per = (4, 200) if quick else (12, 1500)
+    chunks, per = (3, 160) if quick else (12, 1500)
     rec_f = [ex.submit(record_and_validate, ck, exe, k, seed, per, 64 if k % 3 else 24) for k in range(chunks)]
     # ---- 3. direction A: cases from TLC, executed by the driver
     parts = 2 if quick else 6
